@@ -132,6 +132,21 @@ Proof.
   pose proof (Qceiling_lt m) as Hc. rewrite inject_Z_minus in Hc. change (inject_Z 1) with 1%Q in Hc. lra.
 Qed.
 
+(** FSC: on each axis the phase table has exactly one ramp per landscape sample, and the j-th ramp is the lag that the
+    sub-pixel refinement later attributes to landscape index j -- whatever the other axes' ranges are *)
+Lemma fs_table_matches_landscape m j : (0 <= m)%Q -> 0 <= j < fs_n m ->
+  fs_table_len (fs_n m) = fs_n m /\ fs_lag (fs_n m) j = up_z (fs_n m) j /\ - Qceiling m <= fs_lag (fs_n m) j <= Qceiling m.
+Proof.
+  intros Hm Hj. unfold fs_table_len, fs_lag, fsc_phase_lags_range, fsc_phases_per_axis, fsc_landscape_loops_zyx, up_z, up_midpoint, fsc_phase_half.
+  cbn [andb]. unfold fs_n, fsc_out_len in *. rewrite Qtrunc_Z in *.
+  assert (0 <= Qceiling m) as Hc.
+  { pose proof (Qle_ceiling m) as H. apply Z.le_ngt. intro Hneg. assert (Qceiling m <= -1) as H1 by lia.
+    rewrite Zle_Qle in H1. change (inject_Z (-1)) with (-1#1)%Q in H1. lra. }
+  set (c := Qceiling m) in *.
+  assert ((c * 2 + 1) / 2 = c) as E by (symmetry; apply Z.div_unique with (r := 1); lia).
+  rewrite E. repeat split; lia.
+Qed.
+
 (** PCC: the coarse crop is either the symmetric window or the whole axis, and the unwrapped
     arg-max is an integer within round(max_shifts) = floor(max_shifts + 1/2) *)
 Lemma pc_im_spec m : (0 <= m)%Q ->
